@@ -11,13 +11,17 @@ import (
 	"net/netip"
 	"os"
 	"path/filepath"
+	"reflect"
 	"sort"
 	"strings"
 	"time"
+	"unsafe"
 
+	"github.com/fsnotify/fsnotify"
 	"github.com/miekg/dns"
 
 	"github.com/semihalev/sdns/config"
+	"github.com/semihalev/sdns/middleware"
 	"github.com/semihalev/sdns/middleware/cache"
 	"github.com/semihalev/sdns/zzverif/stack"
 )
@@ -89,6 +93,29 @@ func (c ConfSpec) build(dir string) (*config.Config, error) {
 		cfg.ECS.Enabled = true
 	}
 	return cfg, nil
+}
+
+// closeHostsWatcher releases the inotify instance of a world's hosts-file
+// middleware. The middleware has no Stop (a server keeps it for life), so every
+// world with a hosts file would otherwise hold one of the box's 128 inotify
+// instances until the process exits — thousands of worlds per run starve every
+// other process that needs a watcher (TLS certificate managers of other
+// checks). Closing the watcher ends its watch loop; it is done after the world's
+// last serve and touches nothing the verdict depends on.
+func closeHostsWatcher(h middleware.Handler) {
+	if h == nil {
+		return
+	}
+	v := reflect.ValueOf(h)
+	if v.Kind() != reflect.Pointer || v.Elem().Kind() != reflect.Struct {
+		return
+	}
+	f := v.Elem().FieldByName("watcher")
+	if !f.IsValid() || f.Kind() != reflect.Pointer || f.IsNil() || f.Type() != reflect.TypeOf((*fsnotify.Watcher)(nil)) {
+		return
+	}
+	w := (*fsnotify.Watcher)(unsafe.Pointer(f.Pointer())) //nolint:govet // same type, unexported field
+	_ = w.Close()
 }
 
 func tempRoot() string {
@@ -409,7 +436,9 @@ func runWorld(g *Group, world string) *Transcript {
 		tr.Err = "stack: " + err.Error()
 		return tr
 	}
+	hostsHandler := st.Handler("hostsfile")
 	defer func() {
+		closeHostsWatcher(hostsHandler)
 		st.Close()
 		cache.VerifC05ResetEntryLimiters()
 	}()
